@@ -760,3 +760,45 @@ Definition check_c18 := check_cases locase_agree locase_spec.
 
 (* C09 on the logout path: an error or a verdict, never a panic *)
 Definition check_c09_logout := check_cases locase_agree (fun c => negb (lc_obs c =? 2)).
+
+(* ------------------------------------------------------------------ *)
+(* Dolev-Yao view: the signatures that occur in a document *)
+
+(* every (signer, signed content) of a Signature occurring in the tree, including inside
+   decryptable EncryptedAssertions (not inside the [over] payloads, which are not part of the document) *)
+Fixpoint sigs_in (n : node) : list (Z * node) :=
+  match n with
+  | El _ _ _ kids => (fix go (l : list node) : list (Z * node) :=
+                        match l with [] => [] | k :: r => (sigs_in k ++ go r)%list end) kids
+  | SigN _ _ signer _ over => [(signer, over)]
+  | EncN _ _ p => sigs_in p
+  | _ => []
+  end.
+
+(* non-vacuity witnesses: a Response signed by the metadata key, accepted *)
+Definition ex_cfg : spcfg :=
+  {| idp_entity := "https://idp/"; acs_url := "https://sp/acs"; slo_url := "https://sp/slo"; sp_entity := "";
+     metadata_url := "https://sp/md"; trust := TMeta [{| kd_use := "signing"; kd_certs := [0] |}; {| kd_use := "encryption"; kd_certs := [2] |}];
+     allow_idp_init := false; custom_reqid := None; custom_aud := None;
+     max_issue_delay := 90000000000; max_clock_skew := 180000000000 |}.
+Definition ex_conf (noa : string) : node :=
+  El NS_A "SubjectConfirmation" [] [El NS_A "SubjectConfirmationData"
+     [("InResponseTo", "id-1"); ("NotOnOrAfter", noa); ("Recipient", "https://sp/acs")] []].
+Definition ex_assertion : node :=
+  El NS_A "Assertion" [("ID", "a1"); ("IssueInstant", "2024-05-17T10:30:00Z")]
+    [El NS_A "Issuer" [] [Txt "https://idp/"];
+     El NS_A "Subject" [] [El NS_A "NameID" [] [Txt "ali"; Cmt; Txt "ce"]; ex_conf "2024-05-17T10:35:00Z"; ex_conf "2024-05-17T11:36:00.5+01:00"];
+     El NS_A "Conditions" [("NotBefore", "2024-05-17T10:29:00Z"); ("NotOnOrAfter", "2024-05-17T10:40:00Z")]
+       [El NS_A "AudienceRestriction" [] [El NS_A "Audience" [] [Txt "https://sp/md"]]];
+     El NS_A "AttributeStatement" [] [El NS_A "Attribute" [("Name", "mail")] [El NS_A "AttributeValue" [] [Txt "alice@example.com"]]]].
+Definition ex_response_body : list node :=
+  [El NS_A "Issuer" [] [Txt "https://idp/"];
+   El NS_P "Status" [] [El NS_P "StatusCode" [("Value", STATUS_SUCCESS)] []];
+   ex_assertion].
+Definition ex_response_attrs : list (string * string) :=
+  [("ID", "r1"); ("InResponseTo", "id-1"); ("IssueInstant", "2024-05-17T10:30:00Z"); ("Destination", "https://sp/acs")].
+Definition ex_unsigned : node := El NS_P "Response" ex_response_attrs ex_response_body.
+Definition ex_signed (signer : Z) (ki : kinfo) : node :=
+  El NS_P "Response" ex_response_attrs
+     (El NS_A "Issuer" [] [Txt "https://idp/"] :: SigN true "#r1" signer ki ex_unsigned :: tl ex_response_body).
+Definition ex_now : Z := match parse_relaxed "2024-05-17T10:30:30.000000001Z" with Ok t => t + 1 | _ => 0 end.
